@@ -123,7 +123,18 @@ class SymStr:
         return core.Not(self._cmp(o, True))
 
     def __hash__(self):
-        raise Unsupported("hash of a symbolic string")
+        # a string the path condition has narrowed down to a few candidates (c in ('\r', '\n', '\t') before TABLE[c]): one path
+        # per candidate, each with the hash of the concrete string; anything wider stays unsupported
+        cps = []
+        for it in self.items:
+            if isinstance(it, int):
+                cps.append(it)
+            else:
+                try:
+                    cps.append(it.concretize(limit=16))
+                except Unsupported:
+                    raise Unsupported("hash of a symbolic string")
+        return hash("".join(chr(c) for c in cps))
 
     def __bool__(self):
         return len(self.items) > 0
